@@ -284,11 +284,13 @@ impl<'r> Gen<'r> {
 
     /// Any meta form with any value: for conversions judged on totality only.
     fn wild_form(&mut self, depth: usize) -> Form {
-        const INTS: [&str; 30] = [
+        const INTS: [&str; 36] = [
             "0", "1", "127", "128", "255", "256", "32768", "65535", "65536", "2147483648", "4294967295", "4294967296", "9223372036854775808",
             "18446744073709551615", "18446744073709551616", "170141183460469231731687303715884105728", "340282366920938463463374607431768211455",
             "340282366920938463463374607431768211456", "999999999999999999999999999999999999999999999999999999999999", "0xFF", "0xffff_ffff_ffff_ffff_ffff",
             "0o777", "0b1010_1010", "1u8", "300u8", "1i128", "1_000_000", "7usize", "00000000000000000000000000000000000000001", "0x0",
+            // code points: the surrogate gap, the last scalar value and the first non-value
+            "0xD800", "55296", "57343", "0xDFFF", "0x10FFFF", "0x110000",
         ];
         const FLOATS: [&str; 10] = ["1.5", "0.0", "1e10", "1e400", "3.5e38f32", "1f64", "1e-400", "123456789012345678901234567890.0", "1.0e0", "2.5f32"];
         const STRS: [&str; 72] = [
